@@ -8,7 +8,7 @@ one() { d=$1; id=$(basename $d); p=${id%%-*}
   (cd $T/repo && patch -p1 -s < /verif/$d/patch.diff) || { echo "$id PATCH-FAILED"; rm -rf $T; return; }
   out=$(VERIF_REPO=$T/repo VERIF_SELFCHECK=1 ./check $p 2>&1); rc=$?
   keys=$(echo "$out" | grep -E "^\s+\[" | sed 's/^\s*//' | tr '\n' ' ' | cut -c1-220)
-  if [ $rc -ne 0 ]; then echo "$id DETECTED $keys"; else echo "$id MISSED"; fi
+  if [ $rc -ne 0 ]; then echo "$id DETECTED $keys"; elif grep -q '"accepted_miss"' /verif/$d/meta.json 2>/dev/null; then echo "$id ACCEPTED-MISS (not attributed to its target property, see meta.json)"; else echo "$id MISSED"; fi
   rm -rf $T; }
 export -f one
 ls -d seeded/C*-r* | while read d; do id=$(basename $d); p=${id%%-*}; case " $props " in *" $p "*) echo $d;; esac; done | xargs -P 8 -I{} bash -c 'one {}' | sort
